@@ -354,6 +354,44 @@ example : (step (envAt 60 "cc") sOnSale (.purchase "cc" "" foo 999 "OLT")).1 = .
 /-- neither on sale nor expired: not for sale at any price -/
 example : (step (envAt 2 "bb") (run genesis (setup.take 2)) (.purchase "bb" "" foo 999999 "OLT")).1 = .fail .notForSale := by decide
 
+/-! ## 3b. Sale status: listed only by the owner, cleared by every change of ownership -/
+
+/-- for every state and transaction: if an existing record's sale flag, asking price or owner
+    differs afterwards, the transaction was either a sell / cancel of that name whose signer field is
+    the recorded owner (owner unchanged), or a purchase of that name — and after a purchase (on-sale
+    and expired branch alike) the record is off sale, has no asking price and belongs to the buyer -/
+theorem sale_state_changes_need_owner_or_purchase (env : Env) (s : St) (tx : Tx) (n : Name) (d d' : Domain)
+    (hd : alookup n s.recs = some d) (hd' : alookup n (step env s tx).2.recs = some d')
+    (hne : d'.onSale ≠ d.onSale ∨ d'.salePrice ≠ d.salePrice ∨ d'.owner ≠ d.owner) :
+    (∃ p cu c, tx = .sale d.owner n p cu c ∧ d'.owner = d.owner) ∨
+    (∃ b a o c, tx = .purchase b a n o c ∧ d'.owner = b ∧ d'.onSale = false ∧ d'.salePrice = none) :=
+  sale_fields_of_change hd hd' hne
+
+/-- in particular a listing never survives a change of ownership -/
+theorem ownership_change_clears_sale (env : Env) (s : St) (tx : Tx) (n : Name) (d d' : Domain)
+    (hd : alookup n s.recs = some d) (hd' : alookup n (step env s tx).2.recs = some d') (ho : d'.owner ≠ d.owner) :
+    d'.onSale = false ∧ d'.salePrice = none ∧ ∃ b a o c, tx = .purchase b a n o c ∧ d'.owner = b := by
+  rcases sale_fields_of_change hd hd' (Or.inr (Or.inr ho)) with ⟨_, _, _, _, h⟩ | ⟨b, a, o, c, htx, hb, h1, h2⟩
+  · exact absurd h ho
+  · exact ⟨h1, h2, b, a, o, c, htx, hb⟩
+
+/-- a freshly registered name is off sale and unpriced -/
+theorem created_record_is_off_sale (env : Env) (s s' : St) (o b : Addr) (n : Name) (u : String) (uo : Bool) (p : Int)
+    (c : Cur) (h : step env s (.create o b n u uo p c) = (.ok, s')) :
+    ∃ d, alookup n s'.recs = some d ∧ d.onSale = false ∧ d.salePrice = none := by
+  obtain ⟨_, s1, h1, h2⟩ := step_ok h
+  obtain ⟨_, _, _, _, hfr, _⟩ := feeStep_ok h2
+  obtain ⟨d, hrecs, h3, h4⟩ := runCreate_offSale h1
+  exact ⟨d, by rw [hfr, hrecs, alookup_upsert_self], h3, h4⟩
+
+/-- the scenario of corpus/C20/reg_listing_expires_then_bought.hist: foo.ol (asking 200) expires
+    while listed, cc buys it as an expired name, bb then offers the old asking price -/
+def listedExpired : St := (step (envAt 60 "cc") sOnSale (.purchase "cc" "" foo 1040 "OLT")).2
+
+example : (alookup foo sOnSale.recs).map (fun d => (d.onSale, d.salePrice, d.owner)) = some (true, some 200, "aa") ∧
+    (alookup foo listedExpired.recs).map (fun d => (d.onSale, d.salePrice, d.owner)) = some (false, none, "cc") ∧
+    (step (envAt 61 "bb") listedExpired (.purchase "bb" "bb" foo 200 "OLT")).1 = .fail .notForSale := by decide
+
 /-! ## 4. Expiry is set / extended by exactly the blocks the payment buys -/
 
 /-- the value is an int64 -/
